@@ -84,8 +84,18 @@ def spanuse_rule(repo, res, rule="SPANUSE"):
     n_reads = 0
     for f in repo.fns_in("regex"):
         pm = None
+        fenvs = A.collect_envs(f)
+
+        def _span_binding(n, fenvs=fenvs):
+            # a variable bound from a `span` field by a pattern (named `span` by shorthand, or anything else)
+            if n["k"] != "Path" or "::" in n["path"]:
+                return False
+            q = A.resolve(n, fenvs.get(id(n)))
+            alts = q[1] if q[0] == "alt" else (q,)
+            return any(a[0] == "bind" and a[2] == "span" for a in alts)
+
         for n in A.walk(f.body):
-            is_read = (n["k"] == "MethodCall" and n["method"] == "get_span") or (n["k"] == "Path" and n["path"] == "span")
+            is_read = (n["k"] == "MethodCall" and n["method"] == "get_span") or _span_binding(n)
             if not is_read:
                 continue
             n_reads += 1
@@ -133,8 +143,15 @@ def spanuse_rule(repo, res, rule="SPANUSE"):
         envs = A.collect_envs(f)
         pm = A.parent_map(f.body)
         uses = []
+        def _is_regex_id(nd):
+            # a use of the value bound from the `subword_regex_id` field, whatever the binding is called
+            if nd["k"] != "Path" or "::" in nd["path"]:
+                return False
+            q = A.resolve(nd, envs.get(id(nd)))
+            return q[0] == "bind" and q[2] == "subword_regex_id"
+
         for nd in A.walk(f.body):
-            if nd["k"] == "Path" and nd["path"] == "subword_regex_id":
+            if _is_regex_id(nd):
                 par, key = pm.get(id(nd), (None, None))
                 while par is not None and par["k"] in ("Ref", "Unary"):
                     par, key = pm.get(id(par), (None, None))
